@@ -374,6 +374,65 @@ func (k *Kink) AD(x ad.ConstVector) ad.MagicScalar {
 	return y
 }
 
+/* badly scaled convex objective  sum S_i (x_i^4/4 - a_i x_i):  gradient S_i (x_i^3 - a_i)
+ * cannot get below about 3 S_i x^2 ulp(x) at float resolution
+ * -------------------------------------------------------------------------- */
+
+type SteepQuartic struct {
+	n    int
+	S, A []float64
+}
+
+func NewSteepQuartic(r *prng.Rand, n int) *SteepQuartic {
+	q := &SteepQuartic{n: n, S: make([]float64, n), A: make([]float64, n)}
+	for i := 0; i < n; i++ {
+		q.S[i] = r.LogUniform(1e3, 1e12)
+		q.A[i] = r.Uniform(2, 9)
+	}
+	return q
+}
+
+func (q *SteepQuartic) Name() string { return "steep-quartic" }
+func (q *SteepQuartic) N() int       { return q.n }
+func (q *SteepQuartic) Minimiser() ([]float64, bool) {
+	m := make([]float64, q.n)
+	for i := range m {
+		m[i] = math.Cbrt(q.A[i])
+	}
+	return m, true
+}
+func (q *SteepQuartic) Describe() map[string]any {
+	return map[string]any{"family": "steep-quartic", "scale": q.S, "a": q.A}
+}
+func (q *SteepQuartic) Eval(x []float64) Ref {
+	r := newRef(q.n)
+	for i := 0; i < q.n; i++ {
+		x3 := x[i] * x[i] * x[i]
+		r.F += q.S[i] * (x3*x[i]/4 - q.A[i]*x[i])
+		r.FAbs += q.S[i] * (math.Abs(x3*x[i]) + q.A[i]*math.Abs(x[i]))
+		r.G[i] = q.S[i] * (x3 - q.A[i])
+		r.GAbs[i] = q.S[i] * (3*math.Abs(x3) + q.A[i])
+		r.H[i][i] = 3 * q.S[i] * x[i] * x[i]
+		r.HAbs[i][i] = 6 * q.S[i] * x[i] * x[i]
+	}
+	return r
+}
+func (q *SteepQuartic) AD(x ad.ConstVector) ad.MagicScalar {
+	y := ad.NullReal64()
+	t := ad.NullReal64()
+	u := ad.NullReal64()
+	for i := 0; i < q.n; i++ {
+		t.Mul(x.ConstAt(i), x.ConstAt(i))
+		t.Mul(t, t)
+		t.Mul(t, cf(0.25))
+		u.Mul(x.ConstAt(i), cf(q.A[i]))
+		t.Sub(t, u)
+		t.Mul(t, cf(q.S[i]))
+		y.Add(y, t)
+	}
+	return y
+}
+
 /* chained Rosenbrock  sum a (x_{i+1} - x_i^2)^2 + (1 - x_i)^2
  * -------------------------------------------------------------------------- */
 
@@ -570,6 +629,23 @@ type PolySystem struct {
 	Beta []float64
 	R    []float64
 	Mult int // 1: simple root; 2: F_i squared-type (singular Jacobian at the root) for n == 1
+	// steep variant: F_i = S_i (x_i^K_i - a_i) with irrational roots a_i^(1/K_i); the
+	// residual at the floats next to the root is about S_i K_i x^(K-1) ulp(x)
+	Steep   bool
+	S, Aoff []float64
+	K       []int
+}
+
+// NewSteepSystem draws a badly scaled decoupled power system.
+func NewSteepSystem(r *prng.Rand, n int) *PolySystem {
+	p := &PolySystem{n: n, Mult: 1, Steep: true, S: make([]float64, n), Aoff: make([]float64, n), K: make([]int, n), R: make([]float64, n)}
+	for i := 0; i < n; i++ {
+		p.S[i] = r.LogUniform(1e3, 1e12)
+		p.K[i] = r.Range(2, 3)
+		p.Aoff[i] = r.Uniform(2, 9)
+		p.R[i] = math.Pow(p.Aoff[i], 1/float64(p.K[i])) // root up to rounding (used for start points only)
+	}
+	return p
 }
 
 func NewPolySystem(r *prng.Rand, n int) *PolySystem {
@@ -596,12 +672,18 @@ func NewPolySystem(r *prng.Rand, n int) *PolySystem {
 }
 
 func (p *PolySystem) Name() string {
+	if p.Steep {
+		return "steep-power-system"
+	}
 	if p.Mult == 2 {
 		return "polysystem-double-root"
 	}
 	return "polysystem"
 }
 func (p *PolySystem) Describe() map[string]any {
+	if p.Steep {
+		return map[string]any{"family": p.Name(), "scale": p.S, "power": p.K, "a": p.Aoff}
+	}
 	return map[string]any{"family": p.Name(), "A": p.A, "beta": p.Beta, "root": p.R}
 }
 
@@ -610,6 +692,17 @@ func (p *PolySystem) EvalF(x []float64) (F, FAbs []float64, J, JAbs [][]float64)
 	n := p.n
 	F, FAbs = make([]float64, n), make([]float64, n)
 	J, JAbs = make([][]float64, n), make([][]float64, n)
+	if p.Steep {
+		for i := 0; i < n; i++ {
+			J[i], JAbs[i] = make([]float64, n), make([]float64, n)
+			xk1 := math.Pow(x[i], float64(p.K[i]-1))
+			F[i] = p.S[i] * (xk1*x[i] - p.Aoff[i])
+			FAbs[i] = p.S[i] * (math.Abs(xk1*x[i])*float64(p.K[i]) + p.Aoff[i])
+			J[i][i] = p.S[i] * float64(p.K[i]) * xk1
+			JAbs[i][i] = math.Abs(J[i][i]) * float64(p.K[i])
+		}
+		return
+	}
 	d, dAbs := make([]float64, n), make([]float64, n)
 	for i := range d {
 		d[i] = x[i] - p.R[i]
@@ -647,6 +740,18 @@ func (p *PolySystem) EvalF(x []float64) (F, FAbs []float64, J, JAbs [][]float64)
 func (p *PolySystem) AD(x ad.ConstVector) ad.MagicVector {
 	n := p.n
 	y := ad.NullDenseReal64Vector(n)
+	if p.Steep {
+		t := ad.NullReal64()
+		for i := 0; i < n; i++ {
+			t.Set(x.ConstAt(i))
+			for k := 1; k < p.K[i]; k++ {
+				t.Mul(t, x.ConstAt(i))
+			}
+			t.Sub(t, cf(p.Aoff[i]))
+			y.AT(i).Mul(t, cf(p.S[i]))
+		}
+		return y
+	}
 	d := make([]*ad.Real64, n)
 	for i := range d {
 		d[i] = ad.NullReal64()
@@ -805,6 +910,8 @@ func pickFamily(r *prng.Rand, n int, allowed []string) Family {
 		return NewLogistic(r, n)
 	case "kink":
 		return NewKink(r, n)
+	case "steep":
+		return NewSteepQuartic(r, n)
 	}
 	panic("unknown family")
 }
